@@ -88,6 +88,8 @@ class Repo:
                     elif isinstance(sub, ast.Assign) and len(sub.targets) == 1 \
                             and isinstance(sub.targets[0], ast.Name):
                         mi.constants.setdefault(sub.targets[0].id, sub.value)
+                    elif isinstance(sub, ast.AnnAssign) and isinstance(sub.target, ast.Name) and sub.value is not None:
+                        mi.constants.setdefault(sub.target.id, sub.value)
 
     def _scan_import(self, mi: ModuleInfo, node) -> None:
         if isinstance(node, ast.Import):
